@@ -358,6 +358,76 @@ func main() {
 				}
 			}
 		}})
+	// phrases made of one word repeated: the shortest and the longest phrases there are, every value at every position at once
+	ck.Domains = append(ck.Domains, &drv.Domain{Name: "uniform-phrases", Size: 4096 * 2, Chunk: 256, Desc: "both forms with EVERY 12-bit group equal to v, for every v (the all-3-letter-word phrases are the shortest valid phrases, the all-8-letter ones the longest): encode == reference, decode returns the bytes, re-encode returns the phrase",
+		Run: func(c *drv.Ctx, lo, hi int64) {
+			initIdx()
+			for i := lo; i < hi; i++ {
+				c.At(i)
+				v := int(i & 4095)
+				n, nw := 48, 32
+				if i >= 4096 {
+					n, nw = 51, 34
+				}
+				b := make([]byte, n)
+				for g := 0; g < nw; g++ {
+					setGroup(b, g, v)
+				}
+				checkBlock(c, i, b)
+				c.Nontrivial(1)
+				c.Max("longest_phrase_bytes", int64(nw*len(words[v])+nw-1))
+				c.Outcome(fmt.Sprintf("wordlen=%d", len(words[v])))
+			}
+		}})
+	// unknown tokens assembled from list words
+	joiners := []string{",", ";", ":", ".", "-", "_", "/", "|", "+", "\x00", "\t", "\n", "\r", "\u00a0", "\u3000", ""}
+	ck.Domains = append(ck.Domains, &drv.Domain{Name: "compound-tokens", Size: 4096 * int64(len(joiners)) * 4, Chunk: 1024,
+		Desc: "one token of a valid phrase (first / last position) replaced by a token built from list words: w+j+next(w), next(w)+j+w, w+j, j+w for every list word w and 16 joiners (punctuation, control characters, non-ASCII spaces, nothing): refused unless the token is itself a list word (a lookup by substring search in a delimited index accepts some of these)",
+		Run: func(c *drv.Ctx, lo, hi int64) {
+			initIdx()
+			nj := int64(len(joiners))
+			for i := lo; i < hi; i++ {
+				c.At(i)
+				shape := int(i % 4)
+				j := joiners[i/4%nj]
+				v := int(i / 4 / nj)
+				w, nx := words[v], words[(v+1)%4096]
+				var tok string
+				switch shape {
+				case 0:
+					tok = w + j + nx
+				case 1:
+					tok = nx + j + w
+				case 2:
+					tok = w + j
+				case 3:
+					tok = j + w
+				}
+				n, nw, pos := 48, 32, 0
+				if v%2 == 1 {
+					n, nw = 51, 34
+				}
+				if v%4 >= 2 {
+					pos = nw - 1
+				}
+				b := background(n, 2)
+				s, _ := enc(b)
+				ws := strings.Split(s, " ")
+				ws[pos] = tok
+				m := strings.Join(ws, " ")
+				c.Eval(1)
+				if _, err := refcodec.Decode(index, m); err == nil {
+					c.Count("token-is-a-list-word", 1)
+					continue
+				}
+				got, out := dec(m, n)
+				if !strings.HasPrefix(out, "panic-string:") {
+					c.Fail(i, "compound-token-accepted", map[string]any{"token": tok, "position": pos, "form_bytes": n, "observed": fmt.Sprint(out, " ", drv.Hex(got)), "expected": "refusal (explicit string panic)"})
+				}
+				c.Nontrivial(1)
+				c.Outcome(out)
+			}
+		}})
 	ck.Domains = append(ck.Domains, &drv.Domain{Name: "word-counts", Size: 41 * 2, Chunk: 1, Desc: "phrases of 0..40 valid words against both decoders: accepted only with 32 resp. 34 words",
 		Run: func(c *drv.Ctx, lo, hi int64) {
 			initIdx()
